@@ -303,6 +303,9 @@ func main() {
 	r.Cases("callback", r.N(40000, 1500000), ev.Opt{HangViolation: true, MaxCaseSeconds: 25}, callbackCase)
 	r.Cases("big", r.N(1600, 12000), ev.Opt{HangViolation: true}, bigCase)
 	r.Cases("long-ident", r.N(1600, 40000), ev.Opt{HangViolation: true}, longIdentCase)
+	// helpers that remember something under an argument's address: collected strings whose block is reused (gcreuse.go)
+	r.CasesProc("gc-reuse", r.N(16, 160), ev.Opt{Procs: 4, Workers: 1, HangViolation: true, MaxCaseSeconds: 300}, gcReuseCase)
+	r.Require("gc_reuse_rounds", 1500)
 	cold := r.N(24, 48)
 	r.CasesProc("cold-start", cold, ev.Opt{Procs: cold, HangViolation: true}, coldCase)
 
